@@ -1,7 +1,7 @@
 (* Property C10 -- path editing has list semantics.  Statements only. *)
 From Coq Require Import List NArith Bool Arith.
 Import ListNotations.
-Require Import V.Regex V.Parse V.ParseProofs V.PathSpec V.Splice V.Setters V.Iter V.PathQ V.Push V.PathMut V.PathMutProofs V.C10Proofs V.PushWf V.NormProofs V.PopProofs V.SymProofs.
+Require Import V.Regex V.Parse V.ParseProofs V.PathSpec V.Splice V.Setters V.Iter V.PathQ V.Push V.PathMut V.PathMutProofs V.C10Proofs V.PushWf V.Rfc V.NormProofs V.PopProofs V.SymProofs V.MergeProofs.
 Local Open Scope nat_scope.
 
 (* push appends exactly the pushed segment to the segment sequence (sequences taken with "."
@@ -72,6 +72,23 @@ Theorem C10_symbolic_push_handle : forall hs ha h before v after seg, HInv hs ha
   exists h', pm_symbolic_push_pub h seg = Some h' /\ HInv hs ha h' before (sym_push1 (negb hs && negb ha) ha v seg) after.
 Proof. exact hsympush. Qed.
 Print Assumptions C10_symbolic_push_handle.
+
+(* THE LIST SEMANTICS OF symbolic_append: when the accumulated path v0 is the rendering of the stack that the
+   specification walk `norm` reaches on a segment list D (non-empty, dot-free segments after a run of ".." when
+   relative -- Rep), appending segments L that are all non-empty (or all but an empty last one) yields exactly the
+   rendering of RFC 3986 5.2.4 on D ++ L: '.' is skipped, '..' removes the last segment (or is kept / dropped at the
+   root as `norm` says), the other segments are appended, and a final dot segment leaves a trailing '/'.  In every
+   handle context (ctx_ok) and for segments that do not need the colon shield (seg_ctx). *)
+Theorem C10_symbolic_append_law_partial : forall start0 ab fa v0 (D L : list seg),
+  Rep ab v0 (norm ab D) -> ctx_ok start0 fa ab -> L <> [] -> Forall (fun s => nonempty_seg s /\ seg_ctx start0 s) L ->
+  sym_append1 start0 fa v0 L = render ab (rds_segs ab (D ++ L)).
+Proof. exact append_all_nonempty. Qed.
+Print Assumptions C10_symbolic_append_law_partial.
+Theorem C10_symbolic_append_trailing_partial : forall start0 ab fa v0 (D L L0 : list seg),
+  Rep ab v0 (norm ab D) -> ctx_ok start0 fa ab -> L = L0 ++ [[]] -> Forall (fun s => nonempty_seg s /\ seg_ctx start0 s) L0 ->
+  sym_append1 start0 fa v0 L = render ab (rds_segs ab (D ++ L)).
+Proof. intros start0 ab fa v0 D L L0 R C. exact (append_trailing_empty start0 ab fa v0 D L R C L0). Qed.
+Print Assumptions C10_symbolic_append_trailing_partial.
 
 (* ANY sequence of push / pop / clear through ONE handle: whenever the list-level edits of the view are defined
    (pop's scan cannot panic on a non-empty view), the index-level handle performs them without panic, its
